@@ -7,6 +7,7 @@ package main
 // listings of everything compiled (for spec/Bytecode.tla).
 
 import (
+	"bytes"
 	"encoding/json"
 	"flag"
 	"fmt"
@@ -98,6 +99,112 @@ var sessionCatalogue = []string{
 	`(begin (defn rt%d [a] (return a) 5) (rt%d 3))`,
 	`(begin (defn rv%d [a] (for [(def i 0) (< i 3) (def i (+ i 1))] (cond (== i a) (return i) nil)) 9) (rv%d 1))`,
 	`(begin (defn rw%d [a] (let [x a] (newScope (return x))) 9) (rw%d 1))`,
+	// evaluations entered through the Go API on the idle interpreter (see goCallParts)
+	`#gosource stream :: (def gs%d 5) (+ gs%d 1)`,
+	`#gosource exprs :: (+ 1 2)`,
+	`#goevalfn :: (+ 1 2)`,
+	`#goevalfn :: (def ge%d 5) (for [(def i 0) (< i 2) (def i (+ i 1))] (let [q i] q))`,
+}
+
+// ---- derived entries: dimensions on top of the catalogue ----
+//
+// The catalogue puts every form at top level. A form must also balance where its value is an operand of
+// something else, and where it has nothing to evaluate. sessionDerived crosses
+//   positions   every form as an element of an array literal (inline operand), as a call argument,
+//               as the body of a function whose call is an operand, as a cond arm, as a let body
+//   bodies      every body-carrying form with an empty body; func/method with 0..2 declared results
+//   jumps       break/continue at every sub-position of a loop body statement x enclosing scopes x loop at
+//               top level / inside a function
+//   templates   syntax-quote template shapes x unquoted expressions (also ones that do not compile)
+//   files       source/include x number of files x how they are listed x what they hold
+// These entries are evaluated alone (three times in a row on one interpreter) and in the seeded
+// sequences, and their listings go to Bytecode.tla; they are not part of sessionCatalogue (the pairs,
+// and the other families that read the catalogue, keep their size).
+
+const loopHead = `[(def i 0) (< i 3) (def i (+ i 1))]`
+
+func sessionExtras() (plain []string, loops []string) {
+	// bodies
+	plain = append(plain,
+		`(begin)`, `(newScope)`, `(let [ea 1])`, `(letseq [ea 1])`, `(for `+loopHead+`)`,
+		`(begin (defn eb%d []) (eb%d))`, `((fn []))`, `(begin (defn ec%d [a]) (ec%d 1))`,
+		`(package "ep%d" {})`, `(cond true (begin) 5)`, `(cond false 5 (newScope))`, `(range k v (hash a: 1))`,
+		`(eval (quote (begin)))`, `(and 1 (begin))`, `(or nil (begin))`, `{}`, `(infix [])`,
+		`(begin (defmac em%d [] ^(begin)) (em%d))`, `(begin (defn er%d [] (return)) (er%d))`, `(begin (defn es%d [a] (cond a (return) 5)) (es%d true))`,
+		`(include [])`, `(newScope (begin) 1)`, `(begin (begin) (begin))`,
+	)
+	for nret := 0; nret <= 2; nret++ {
+		rets := []string{"", "a:int64", "a:int64 b:int64"}[nret]
+		for _, body := range []string{"", ` (return 1)`, ` 1`} {
+			plain = append(plain,
+				fmt.Sprintf(`(begin (func ef%%d [] [%s]%s) (ef%%d))`, rets, body),
+				fmt.Sprintf(`(begin (struct ES%%d [(field X: int64)]) (method [(p *ES%%d)] EM%%d [] [%s]%s) (EM%%d))`, rets, body))
+		}
+	}
+	// templates
+	unq := []string{`(+ 1 1)`, `(list 1 2 3)`, `(list)`, `(let [q 1] (list q 2))`, `(for ` + loopHead + ` (list i))`,
+		`(let [q 1] (and))`, `(for ` + loopHead + ` (and))`, `(newScope (let [a] 1))`, `(let [q 1] (newScope (cond 1 2)))`}
+	shapes := []string{`^~U`, `^~@U`, `^(foo ~U)`, `^(foo ~@U bar)`, `^[1 ~U]`, `^[~@U]`, `^(a (b ~U) ~@U)`, `^(foo [~U] ~U)`}
+	for _, sh := range shapes {
+		for _, u := range unq {
+			plain = append(plain, strings.ReplaceAll(sh, "U", u))
+		}
+	}
+	// files
+	for _, verb := range []string{"source", "include"} {
+		for _, files := range []string{`"%A"`, `"%E"`, `"%M"`, `"%A" "%B"`, `"%A" "%B" "%C"`, `["%A" "%B"]`, `["%A"] "%B"`, `"%A" "%E"`, `"%E" "%A"`, `"%M" "%C"`} {
+			plain = append(plain, fmt.Sprintf(`(%s %s)`, verb, files))
+		}
+		plain = append(plain, fmt.Sprintf(`(%s (list "%%A" "%%B"))`, verb))
+	}
+	plain = append(plain, `(source (quote ("%A" "%B")))`)
+	// jumps
+	at := []string{
+		`(cond (and (== i 1) J) 1 2)`, `(cond (begin J true) 1 2)`, `(cond (== i 1) J 2)`, `(cond (!= i 1) 2 J)`,
+		`(and (== i 1) J)`, `(or (!= i 1) J)`, `(let [b (cond (== i 1) J 0)] b)`, `[1 (cond (== i 1) J 0)]`,
+		`(begin (cond (== i 1) J 0) 3)`, `(newScope (cond (== i 1) J 0))`, `(cond (cond (== i 1) J false) 1 2)`,
+		`(cond (let [c i] (cond (== c 1) J false)) 1 2)`,
+	}
+	encl := []string{`X`, `(let [a 1] X)`, `(newScope X)`, `(let [a 1] (newScope X))`}
+	for _, j := range []string{`(break)`, `(continue)`} {
+		for _, a := range at {
+			for _, e := range encl {
+				body := strings.ReplaceAll(e, "X", strings.ReplaceAll(a, "J", j))
+				loop := `(for ` + loopHead + ` ` + body + `)`
+				loops = append(loops, loop, `(begin (defn lj%d [] `+loop+` 7) (lj%d))`)
+			}
+		}
+	}
+	return
+}
+
+var sessionPositions = []string{
+	`[7 F]`, `(list 7 F)`, `(begin (defn zpos%d [] F) [7 (zpos%d)])`, `(cond true F 5)`, `(let [pz 1] F)`,
+}
+
+var derivedCache []string
+
+func sessionDerived() []string {
+	if derivedCache != nil {
+		return derivedCache
+	}
+	plain, loops := sessionExtras()
+	out := append([]string{}, plain...)
+	out = append(out, loops...)
+	var forms []string
+	for _, t := range sessionCatalogue {
+		if !strings.HasPrefix(t, "#") {
+			forms = append(forms, t)
+		}
+	}
+	forms = append(forms, plain...)
+	for _, pos := range sessionPositions {
+		for _, f := range forms {
+			out = append(out, strings.ReplaceAll(pos, "F", f))
+		}
+	}
+	derivedCache = out
+	return out
 }
 
 type sessEv struct {
@@ -176,14 +283,140 @@ func goApplyParts(t string) (name string, arg int64, setup string, ok bool) {
 	return name, a, rest[i+4:], true
 }
 
+// "#gosource stream|file|exprs :: TEXT": the host hands TEXT to env.SourceStream / SourceFile /
+// SourceExpressions on the idle interpreter. "#goevalfn :: TEXT": the host calls zygo.EvalFunction
+// (the function behind the eval builtin) with the parsed forms of TEXT. As text both read TEXT (the first
+// followed by nil: SourceStream returns no value).
+func goCallParts(t string) (kind, via, text string, ok bool) {
+	for _, k := range []string{"#gosource ", "#goevalfn "} {
+		if strings.HasPrefix(t, k) {
+			rest := strings.TrimPrefix(t, k)
+			i := strings.Index(rest, ":: ")
+			if i < 0 {
+				return
+			}
+			return strings.TrimSpace(k)[1:], strings.TrimSpace(rest[:i]), rest[i+3:], true
+		}
+	}
+	return
+}
+
 func asText(t string) string {
 	if name, arg, setup, ok := goApplyParts(t); ok {
 		return fmt.Sprintf("%s\n(%s %d)", setup, name, arg)
 	}
+	if kind, _, text, ok := goCallParts(t); ok {
+		if kind == "gosource" {
+			return text + "\nnil" // the host is told only whether it failed
+		}
+		return text
+	}
 	return t
 }
 
+// Entries may name files: %A, %B, %C hold one definition each, %E is empty, %M holds three forms. The
+// recorded text keeps the placeholders (a replay writes the files again); withFiles puts the paths in.
+var sessFileDir string
+
+var sessFileContents = map[string]string{
+	"A": "(def srcA 11)\n", "B": "(def srcB 22)\n", "C": "(+ 30 3)\n", "E": "", "M": "(def srcM 1)\n(def srcN 2)\n[srcM srcN]\n",
+}
+
+func withFiles(t string) string {
+	if !strings.Contains(t, "%") {
+		return t
+	}
+	for k, content := range sessFileContents {
+		ph := "%" + k
+		if !strings.Contains(t, ph) {
+			continue
+		}
+		if sessFileDir == "" {
+			d, err := os.MkdirTemp("", "zvsess")
+			if err != nil {
+				fatal("%v", err)
+			}
+			sessFileDir = d
+		}
+		p := sessFileDir + "/" + strings.ToLower(k) + ".zy"
+		if _, err := os.Stat(p); err != nil {
+			if err := os.WriteFile(p, []byte(content), 0o644); err != nil {
+				fatal("%v", err)
+			}
+		}
+		t = strings.ReplaceAll(t, ph, p)
+	}
+	return t
+}
+
+func sessCleanup() {
+	if sessFileDir != "" {
+		os.RemoveAll(sessFileDir)
+		sessFileDir = ""
+	}
+}
+
+// goCall runs f (a call of the Go API) with the step budget armed, recovering a panic.
+func goCall(f func() (zygo.Sexp, error)) (o outcome) {
+	zygo.VerifSetBudget(defaultBudget)
+	defer zygo.VerifSetBudget(-1)
+	defer func() {
+		if r := recover(); r != nil {
+			o = outcome{Kind: "panic", Err: fmt.Sprint(r)}
+		}
+	}()
+	v, err := f()
+	switch {
+	case err != nil:
+		return outcome{Kind: "err", Err: err.Error()}
+	case v == nil:
+		return outcome{Kind: "nilres"}
+	}
+	return outcome{Kind: "val", Val: v}
+}
+
+func parseForms(env *zygo.Zlisp, text string) ([]zygo.Sexp, error) {
+	p := env.VerifParser()
+	p.ResetAddNewInput(bytes.NewBufferString(text))
+	return p.ParseTokens()
+}
+
 func evalEntry(env *zygo.Zlisp, t string) outcome {
+	t = withFiles(t)
+	if kind, via, text, ok := goCallParts(t); ok {
+		text += "\n"
+		switch {
+		case kind == "goevalfn":
+			return goCall(func() (zygo.Sexp, error) {
+				xs, err := parseForms(env, text)
+				if err != nil {
+					return zygo.SexpNull, err
+				}
+				return zygo.EvalFunction(env, "eval", xs)
+			})
+		case via == "exprs":
+			return goCall(func() (zygo.Sexp, error) {
+				xs, err := parseForms(env, text)
+				if err != nil {
+					return zygo.SexpNull, err
+				}
+				return zygo.SexpNull, env.SourceExpressions(xs)
+			})
+		case via == "file":
+			return goCall(func() (zygo.Sexp, error) {
+				f, err := os.CreateTemp("", "zvsrc")
+				if err != nil {
+					return zygo.SexpNull, err
+				}
+				defer os.Remove(f.Name())
+				defer f.Close()
+				f.WriteString(text)
+				f.Seek(0, 0)
+				return zygo.SexpNull, env.SourceFile(f)
+			})
+		}
+		return goCall(func() (zygo.Sexp, error) { return zygo.SexpNull, env.SourceStream(strings.NewReader(text)) })
+	}
 	name, arg, setup, ok := goApplyParts(t)
 	if !ok {
 		return evalSafe(env, t+"\n")
@@ -196,26 +429,7 @@ func evalEntry(env *zygo.Zlisp, t string) outcome {
 	if !found || !isFn {
 		return outcome{Kind: "err", Err: "goapply: no such function"}
 	}
-	var o outcome
-	func() {
-		zygo.VerifSetBudget(defaultBudget)
-		defer zygo.VerifSetBudget(-1)
-		defer func() {
-			if r := recover(); r != nil {
-				o = outcome{Kind: "panic", Err: fmt.Sprint(r)}
-			}
-		}()
-		v, err := env.Apply(fn, []zygo.Sexp{&zygo.SexpInt{Val: arg}})
-		switch {
-		case err != nil:
-			o = outcome{Kind: "err", Err: err.Error()}
-		case v == nil:
-			o = outcome{Kind: "nilres"}
-		default:
-			o = outcome{Kind: "val", Val: v}
-		}
-	}()
-	return o
+	return goCall(func() (zygo.Sexp, error) { return env.Apply(fn, []zygo.Sexp{&zygo.SexpInt{Val: arg}}) })
 }
 
 func runSession(id string, texts []string, twin bool) sessCase {
@@ -241,7 +455,7 @@ func runSession(id string, texts []string, twin bool) sessCase {
 			// the twin uses its own unique numbers: type names are registered process-wide
 			var t2 []string
 			for _, t := range texts {
-				t2 = append(t2, uidRe.ReplaceAllStringFunc(asText(t), func(m string) string { return "9" + m }))
+				t2 = append(t2, withFiles(uidRe.ReplaceAllStringFunc(asText(t), func(m string) string { return "9" + m })))
 			}
 			o := evalSafe(env2, strings.Join(t2, "\n")+"\n")
 			c.Together = printedOutcome(env2, o)
@@ -291,7 +505,7 @@ func collectListings(idp string, text string, seen map[string]bool) []listingCas
 		zygo.VerifCollectFunctions(true)
 		defer zygo.VerifCollectFunctions(false)
 		mainBefore := len(env.VerifMainFunction().VerifListing().Instrs)
-		evalSafe(env, text+"\n")
+		evalSafe(env, withFiles(text)+"\n")
 		fns := zygo.VerifSeenFunctions()
 		n := 0
 		add := func(l *zygo.VerifListing, kind string) {
@@ -343,6 +557,11 @@ func collectListings(idp string, text string, seen map[string]bool) []listingCas
 				add(&chunk, "chunk")
 				continue
 			}
+			if l.Name == "__source" {
+				// the forms of a sourced file or stream: a function that ends like a top-level chunk
+				add(l, "chunk")
+				continue
+			}
 			add(l, "fn")
 		}
 	})
@@ -358,6 +577,7 @@ func init() {
 		})
 		w := newWriter(c.out)
 		defer w.close()
+		defer sessCleanup()
 		if c.replay != "" {
 			readLines(c.replay, func(line []byte) {
 				var in sessCase
@@ -372,7 +592,7 @@ func init() {
 				for _, e := range in.Evs {
 					texts = append(texts, e.Text)
 				}
-				w.write(runSession(in.ID, texts, true))
+				w.write(runSession(in.ID, texts, in.Kind != "alone"))
 			})
 			return 0
 		}
@@ -401,6 +621,14 @@ func init() {
 			for i, t := range cat {
 				if c.mine(idx) {
 					for _, l := range collectListings(fmt.Sprintf("L%d", i), asText(inst(t, 100000+i)), seen) {
+						w.write(l)
+					}
+				}
+				idx++
+			}
+			for i, t := range sessionDerived() {
+				if c.mine(idx) {
+					for _, l := range collectListings(fmt.Sprintf("D%d", i), asText(inst(t, 150000+i)), seen) {
 						w.write(l)
 					}
 				}
@@ -449,6 +677,17 @@ func init() {
 			}
 			idx++
 		}
+		// every derived entry alone, three times in a row on one interpreter, each followed by an empty evaluation
+		der := sessionDerived()
+		for i, t := range der {
+			if c.mine(idx) {
+				x := inst(t, 600000+i)
+				sc := runSession(fmt.Sprintf("d%d", i), []string{x, x, x}, false)
+				sc.Kind = "alone"
+				w.write(sc)
+			}
+			idx++
+		}
 		// all pairs (quick: a seeded third of them; thorough: all pairs and sampled triples)
 		for i, a := range cat {
 			for j, b := range cat {
@@ -469,7 +708,11 @@ func init() {
 				var texts []string
 				ln := 3 + r.intn(2)
 				for s := 0; s < ln; s++ {
-					texts = append(texts, inst(cat[r.intn(len(cat))], 2000000+k*10+s))
+					if r.intn(3) == 0 {
+						texts = append(texts, inst(der[r.intn(len(der))], 2000000+k*10+s))
+					} else {
+						texts = append(texts, inst(cat[r.intn(len(cat))], 2000000+k*10+s))
+					}
 				}
 				w.write(runSession(fmt.Sprintf("t%d-%d", c.seed, k), texts, true))
 			}
